@@ -135,6 +135,30 @@ Theorem C02_rewrites : forall r l l',
 Proof. exact apply_rw_spec. Qed.
 Print Assumptions C02_rewrites.
 
+(* the same for a rewrite applied to ANY sub-loop (path of child indices), and for ANY sequence of such rewrites -
+   which is what flatten_and_balance and cleanup perform: the duration is kept, no window is ever added or moved, and
+   the windows that disappear are exactly the accumulated own windows of the loops that were unrolled *)
+Theorem C02_rewrite_anywhere : forall path r l l',
+  apply_at path r l = Some l' -> side_at path r l = true ->
+  ldur l' = ldur l /\ Permutation (loop_windows l' ++ lost_at path r l) (loop_windows l).
+Proof. exact apply_at_spec. Qed.
+Print Assumptions C02_rewrite_anywhere.
+Theorem C02_rewrite_sequences : forall steps l l' lost,
+  run_seq steps l = Some (l', lost) -> sides_ok steps l = true ->
+  ldur l' = ldur l /\ Permutation (loop_windows l' ++ lost) (loop_windows l).
+Proof. exact run_seq_spec. Qed.
+Print Assumptions C02_rewrite_sequences.
+Example C02_rewrite_sequences_nonvacuous :
+  let c := Loop 2 None [(0%N, Q2Qc 1, Q2Qc 1)] [Loop 3 (Some (Q2Qc 2)) [(1%N, Q2Qc 0, Q2Qc 1)] []; Loop 1 (Some (Q2Qc 1)) [] []] in
+  let l := Loop 1 None [(2%N, Q2Qc 0, Q2Qc 1)] [Loop 1 (Some (Q2Qc 1)) [] []; Loop 1 None [] [c]] in
+  (* what flatten_and_balance(1) does here: merge the single child, then unroll it *)
+  let steps := [([1%nat], RMerge); ([], RUnroll 1)] in
+  match run_seq steps l with
+  | Some (l', lost) => sides_ok steps l && (length lost =? 2)%nat && (length (loop_windows l') =? 7)%nat
+  | None => false
+  end = true.
+Proof. vm_compute. reflexivity. Qed.
+
 (* Loop.unroll() / Loop.unroll_children() as they are lose the unrolled loop's own windows: the unguarded statement
    "the rewrite keeps get_measurement_windows()" is false of the faithful model (and of the code: known finding
    rewrite-drops-own-measurements) ... *)
